@@ -110,6 +110,17 @@ SpTab == {SP, TAB}
 Repeat(s, n) == IF n <= 0 THEN "" ELSE IF n = 1 THEN s ELSE IF n = 2 THEN s \o s
                 ELSE IF n = 3 THEN s \o s \o s ELSE s \o s \o s \o s
 
+(* Opaque symbols: the private-use code points U+E000..U+E0FF stand for the raw bytes 00..FF  *)
+(* where these are not part of valid UTF-8 (the driver maps them both ways, DESIGN 3.1).      *)
+PUASyms == {"", "", "", "", "", "", "", "", "", "", "", "", "", "", "", "", "", "", "", "", "", "", "", "", "", "", "", "", "", "", "", "", "", "", "", "", "", "", "", "", "", "", "", "", "", "", "", "", "", "", "", "", "", "", "", "", "", "", "", "", "", "", "", "", "", "", "", "", "", "", "", "", "", "", "", "", "", "", "", "", "", "", "", "", "", "", "", "", "", "", "", "", "", "", "", "", "", "", "", "", "", "", "", "", "", "", "", "", "", "", "", "", "", "", "", "", "", "", "", "", "", "", "", "", "", "", "", "", "", "", "", "", "", "", "", "", "", "", "", "", "", "", "", "", "", "", "", "", "", "", "", "", "", "", "", "", "", "", "", "", "", "", "", "", "", "", "", "", "", "", "", "", "", "", "", "", "", "", "", "", "", "", "", "", "", "", "", "", "", "", "", "", "", "", "", "", "", "", "", "", "", "", "", "", "", "", "", "", "", "", "", "", "", "", "", "", "", "", "", "", "", "", "", "", "", "", "", "", "", "", "", "", "", "", "", "", "", "", "", "", "", "", "", "", "", "", "", "", "", "", "", "", "", "", "", ""}
+SymNUL == ""
+Sym80  == ""
+SymE4  == ""
+SymB8  == ""
+SymF0  == ""
+SymFF  == ""
+RuneErr == "�"      \* U+FFFD, what an invalid byte becomes inside parsed data
+
 IndentStyles == <<"    ", "   ", "  ", TAB>>      \* longest first
 IndentSet    == {"    ", "   ", "  ", TAB}
 
